@@ -109,7 +109,7 @@ func (form FormData) ParseMultipart() {
 				panic(ErrBadRequest)
 			}
 		}
-		panic("form: " + err.Error())
+		panic(errors.New("form: " + err.Error()))
 	}
 	// request.Form contains the query parameters and, after the call to
 	// ParseMultipartForm, also the values of the multipart form.
@@ -148,7 +148,7 @@ func (form FormData) parse() {
 				panic(ErrBadRequest)
 			}
 		}
-		panic("form:" + err.Error())
+		panic(errors.New("form: " + err.Error()))
 	}
 	form.data.values = form.request.Form
 }
@@ -228,6 +228,10 @@ func isMultipartFormError(err error) bool {
 			return true
 		}
 		if strings.HasPrefix(s, "malformed MIME header line: ") {
+			return true
+		}
+		// For example "malformed MIME header: missing colon: ...".
+		if strings.HasPrefix(s, "malformed MIME header: ") {
 			return true
 		}
 	}
